@@ -62,3 +62,9 @@ put('C11', 'f24-all-transparent', {'what': 'colourful', 'kind': 'png', 'sym': {'
     'opts': {'dark': None, 'light': None, 'scale': 1}}, note='fixed 170b03b')
 put('C09', 'f27-float-alpha-png', {'sym': {'content': enc_content('12345'), 'kw': {'version': 1, 'mask': 2}}, 'kind': 'png', 'opts': {'dark': [255, 0, 0, 0.5], 'border': 1}}, note='fixed 288f385')
 print('C11 regress written')
+
+# C14
+for kind in ('svg', 'png', 'eps'):
+    for bad in ('#-12345', '#+1+2+3', '#1_2_3_'):
+        put('C14', 'f28-hex-%s-%s' % (kind, ''.join('%02x' % ord(c) for c in bad)), {'what': 'serializer', 'kind': kind, 'opts': {'dark': bad}, 'bad': 'colour'}, note='fixed ffc3e27')
+print('C14 regress written')
